@@ -257,6 +257,17 @@ def run_c06(tier, seed, rep, only_prop=False, scale=1):
             except Exception as e:
                 rep.prop_fail.append(("Force.compute raised %s in a history: %s" % (type(e).__name__, e), {"case": {"kind": "ehist", "ops": ops, "mode": "exact"}}))
         lines.append("perm|%s|%s" % (r1[0][1], r2[0][1])); metas.append({"kind": "perm", "labels": labelsA, "perm": perm, "opts": o, "mode": mode})
+        if o.get("density") == 1 and o.get("minPos") == 0 and o.get("maxPos") is not None:
+            # an exactly full layer: in floating point the sum of the widths depends on the order of summation — several more orders of the input
+            try:
+                rf = I.run_history([("new", o), ("nodes", labelsA), ("compute",)], "float")
+                for _t in range(6):
+                    pp = list(labelsA); rng.shuffle(pp)
+                    rp = I.run_history([("new", o), ("nodes", pp), ("compute",)], "float")
+                    lines.append("perm|%s|%s" % (rf[0][1], rp[0][1])); metas.append({"kind": "perm", "labels": labelsA, "perm": pp, "opts": o, "mode": "float"})
+                    rep.count("perm on an exactly full layer")
+            except Exception:
+                pass
     # several engines alive at once, sharing list objects and node objects (EngineT.MWorld): equality with the transliteration after every
     # compute, and — the property itself — every compute reports what a fresh engine reports for the same options and data
     earlier = []
